@@ -1,6 +1,7 @@
 import Restful.Lemmas.TieImp
 import Restful.Model.Detect
 import Restful.Lemmas.TieImpLoop
+import Restful.Lemmas.TieImpTactic
 namespace Restful
 namespace TieImp
 namespace T5
@@ -17,11 +18,15 @@ local macro "imp_step" "[" ts:simpLemma,* "]" : tactic =>
       Option.bind_eq_bind, Option.bind_some, any_loop]
     simp only [starStar, len_beq_zero, List.isEmpty_nil, String.reduceToList]
     repeat' split
+    all_goals simp_all [-List.any_eq_true, -List.any_eq_false]
+    -- a second round for the conditionals that only surface after the first one
+    all_goals (repeat' split)
     all_goals simp_all [-List.any_eq_true, -List.any_eq_false]))
 
 theorem matches_accept (X : ImpGen.Ext) (r : Route) (accept : Str) :
     ImpGen.Route_matchesAccept X accept r.produces = some (matchesAccept r accept) := by
   unfold ImpGen.Route_matchesAccept matchesAccept
+  unfold_gen_helpers
   rw [acceptLoop_eq]
   apply fuel_loop_bind (fun mt => mt == starStar || r.produces.any fun p => p == starStar || p == mt)
   case hl => simp [range, len]
@@ -58,6 +63,7 @@ local macro "content_loop" r:term : tactic =>
 theorem matches_content_type (X : ImpGen.Ext) (r : Route) (ct : Str) :
     ImpGen.Route_matchesContentType X ct r.consumes r.method r.noct = some (matchesContentType r ct) := by
   unfold ImpGen.Route_matchesContentType matchesContentType
+  unfold_gen_helpers
   simp only [consumeLoop_eq, len_beq_zero]
   cases hc : r.consumes.isEmpty
   · cases hm : ct.isEmpty
